@@ -799,8 +799,8 @@ class Sym:
                 if all(v == present[0] for v in present) and (len(present) == len(vals) or isinstance(present[0], CollState) or attr == "vars" or k.startswith("#")):
                     tgt[k] = present[0]
                     continue
-                if isinstance(present[0], tuple):
-                    continue  # key table of a dict literal that differs between the branches: dropped
+                if isinstance(present[0], (tuple, int)):
+                    continue  # key table of a dict literal / lead count of a generator result that differs between the branches: dropped
                 if isinstance(present[0], CollState):
                     tgt[k] = self._merge_coll([(v, r) for v, r in zip(vals, rests) if v is not None])
                     continue
@@ -1616,8 +1616,17 @@ class Sym:
             ydeps = frozenset().union(*[self.deps(v, st) for v, _c in frame.yields]) if frame.yields else frozenset()
             if frame.yields_exact:
                 return self.new_coll(st, "list", list(frame.yields), True, deps=ydeps)
-            # `for m in modules: if cond(m): yield m` - the elements of `modules` that satisfy cond
             sites = frame.__dict__.get("yield_sites", [])
+            # what the generator yields before it enters its first loop comes first, in this order (a worklist generator
+            # hands out its start node before anything else): kept as the leading elements of the otherwise unknown result
+            lead = 0
+            while lead < len(sites) and lead < len(frame.yields) and not sites[lead][2] and frame.yields[lead][0] == sites[lead][0]:
+                lead += 1
+            if 0 < lead < len(sites) and all(ls for _y, _p, ls in sites[lead:]):
+                c = self.new_coll(st, "list", list(frame.yields[:lead]), False, deps=ydeps | deps)
+                st.store[key(c) + ".lead"] = lead
+                return c
+            # `for m in modules: if cond(m): yield m` - the elements of `modules` that satisfy cond
             if sites and all(len(ls) == 1 and ls[0] is sites[0][2][0] and ls[0].elem is not None and y == ls[0].elem for y, _p, ls in sites):
                 lc = sites[0][2][0]
                 comp = lc.elem.meta[0] if isinstance(lc.elem, Opq) and lc.elem.meta else None
@@ -2452,6 +2461,25 @@ class Sym:
             if broke:
                 cur = self.merge([(x, TRUE) for x in ([cur] if cur is not None else []) + broke], st)
             return cur
+        cs = self.coll_state(it, st)
+        lead = st.store.get(key(it) + ".lead", 0) if cs is not None else 0
+        if cs is not None and not cs.exact and 0 < lead <= len(cs.items) and complete:
+            # the leading elements are known (see call_function): run the body for them, then abstractly for the rest
+            cur: State | None = st
+            for v, c in cs.items[:lead]:
+                if cur is None:
+                    return None
+                if c != TRUE and not implies_path(cur.path, c):
+                    taken = cur.fork(c)
+                    self.assign(s.target, v, taken, ctx)
+                    end, _br = self._iteration(s.body, taken, ctx)
+                    cur = self.merge([(end, c), (cur.fork(f_not(c)), f_not(c))], cur)
+                else:
+                    self.assign(s.target, v, cur, ctx)
+                    cur, _br = self._iteration(s.body, cur, ctx)
+            if cur is None:
+                return None
+            st = cur
         after = self._abstract_loop(s, s.body, st, ctx, it, s.target, "for")
         if s.orelse:
             return self.block(s.orelse, after, ctx)
